@@ -49,6 +49,9 @@ func readerCommands(rng *rand.Rand, keys []string) []readCmd {
 		add("where-expr", "SCAN", k, "WHERE", "(x * 2 + y) % 7 == 3 || x == "+th, "COUNT")
 		add("wherein", "SCAN", k, "WHEREIN", "x", "3", th, strconv.Itoa(lo), strconv.Itoa(hi), "COUNT")
 		add("whereeval", "SCAN", k, "WHEREEVAL", "return (FIELDS.x or 0) > tonumber(ARGV[1])", "1", th, "COUNT")
+		// a filter script has no business calling into the server: the call must be refused whatever
+		// ran on that interpreter before (the pool is shared with EVAL/EVALNA/EVALRO)
+		add("whereeval/call", "SCAN", k, "WHEREEVAL", "tile38.pcall('SET', 'leak', ARGV[1], 'STRING', 'v') return (FIELDS.y or 0) < 50", "1", "w"+th, "LIMIT", "40", "COUNT")
 		add("match", "SCAN", k, "MATCH", fmt.Sprintf("p%d*", rng.Intn(10)), "COUNT")
 		add("match+where-expr", "SCAN", k, "MATCH", fmt.Sprintf("p*%d", rng.Intn(10)), "WHERE", "y >= "+th, "COUNT")
 		// expression operators that go through the extender callbacks (regex cache, match)
@@ -131,6 +134,27 @@ func runReaders(r *hx.Result, cfg hx.Config, rng *rand.Rand) {
 		return
 	}
 	cmds := readerCommands(rng, keys)
+	// scripts of every kind have run on the pooled interpreters before the reads start
+	for _, a := range [][]string{{"EVAL", "return tile38.call('GET', 'names', 'n00001')", "0"}, {"EVALRO", "return 1", "0"},
+		{"EVALNA", "return tile38.call('GET', 'names', 'n00002')", "0"}, {"EVAL", "return 1", "0"}} {
+		if v, err := c.Do(a...); err != nil || v.IsErr() {
+			r.Fail(hx.Failure{Kind: "oracle", Signature: "readers-setup", What: fmt.Sprintf("%q: %v %v", a, v.String(), err)})
+			return
+		}
+	}
+	snapshot := func() string {
+		v, err := c.Do("KEYS", "*")
+		if err != nil {
+			return "transport:" + err.Error()
+		}
+		out := v.String()
+		for _, k := range v.Array {
+			w, _ := c.Do("SCAN", k.Str, "COUNT")
+			out += " " + k.Str + "=" + w.String()
+		}
+		return out
+	}
+	before := snapshot()
 	// one at a time: the only possible answers
 	want := make([]string, len(cmds))
 	for i, cm := range cmds {
@@ -211,6 +235,12 @@ func runReaders(r *hx.Result, cfg hx.Config, rng *rand.Rand) {
 		r.Fail(hx.Failure{Kind: "oracle", Signature: "server-died", What: "the server exited while " + strconv.Itoa(conns) + " connections were reading: " + s.LogTail(600)})
 		return
 	}
+	// read commands leave the dataset as it was
+	if after := snapshot(); after != before {
+		r.Fail(hx.Failure{Kind: "oracle", Signature: "read-commands-changed-the-dataset",
+			What: fmt.Sprintf("only read commands (SCAN/SEARCH/WITHIN/INTERSECTS/NEARBY/EVALRO, among them %s) were sent after EVAL / EVALRO / EVALNA scripts had run on the pooled interpreters; KEYS * with object counts before: %s; after: %s",
+				strings.Join(quoteAll(cmds[firstForm(cmds, "whereeval/call")].args), " "), short(before), short(after))})
+	}
 	// the dataset did not change: the answers alone are still the same
 	for i, cm := range cmds {
 		v, err := c.Do(cm.args...)
@@ -240,6 +270,15 @@ func runReaders(r *hx.Result, cfg hx.Config, rng *rand.Rand) {
 		inflightMax >= 4)
 	r.TracesImpl++
 	r.Sample(1, map[string]interface{}{"concurrent_readers": conns, "commands": len(cmds), "replies_compared": total, "max_in_flight": inflightMax, "differing": len(bads)})
+}
+
+func firstForm(cmds []readCmd, form string) int {
+	for i, c := range cmds {
+		if c.form == form {
+			return i
+		}
+	}
+	return 0
 }
 
 func quoteAll(a []string) []string {
